@@ -1,5 +1,6 @@
 import KitModel.Go.Prelude
 import KitModel.Processor
+import KitModel.ProcessorAccept
 /-!
 Driver for property C06: trace inclusion.  `kitdrv C06` reads one observed event per line and keeps
 the set of states of the LTS `Kit.Processor.lts` that are compatible with the events so far, closed
@@ -21,32 +22,9 @@ abbrev Lb := Label Int Unit
 
 structure D where
   cfg : Cfg := ⟨true⟩
-  states : List St := []
-  frozen : Bool := false
+  sim : Sim Int Unit := { states := [], frozen := false }
   dead : Bool := true
   heap : Heap.H Int Unit := #[]
-
-/-- Unobservable labels (everything internal that the harness does not log). -/
-def hiddenLabels (frozen : Bool) : List Lb :=
-  [.closeStopCh, .closeTake] ++
-  (if frozen then [] else
-    [.pollStop, .pollReset, .pollNone, .decide, .timerFire, .recvReset, .recvStop, .release])
-
-def dedup (xs : List St) : List St :=
-  xs.foldl (fun acc x => if acc.contains x then acc else acc ++ [x]) []
-
-def strip (s : St) : St := { s with log := [] }
-
-def closureFuel (cfg : Cfg) (frozen : Bool) : Nat → List St → List St → List St
-  | 0, seen, _ => seen
-  | fuel + 1, seen, frontier =>
-    let next := frontier.flatMap fun s => (hiddenLabels frozen).filterMap fun l => (step cfg s l).map strip
-    let fresh := (dedup next).filter (fun s => !seen.contains s)
-    if fresh.isEmpty then seen else closureFuel cfg frozen fuel (seen ++ fresh) fresh
-
-def closure (cfg : Cfg) (frozen : Bool) (ss : List St) : List St :=
-  let ss := dedup (ss.map strip)
-  closureFuel cfg frozen 64 ss ss
 
 def pcName : Pc Int Unit → String
   | .absent => "absent" | .top => "top" | .peeked r => s!"peeked({r.id})" | .polled r => s!"polled({r.id})"
@@ -65,102 +43,36 @@ def showSt (s : St) : String :=
 
 def showSet (ss : List St) : String := " ".intercalate ((ss.take 6).map showSt)
 
-def byId (s : St) (id : Nat) : Option (Item Int Unit) := s.q.find? (fun r => r.id == id)
+def parseOut (s : String) : Option POut :=
+  match s with
+  | "spawn" => some .spawn | "reset" => some .reset | "none" => some .none | _ => none
 
-def outOf (tok : Token) (reset called first : Bool) : String :=
-  if !called then "none"
-  else match tok with
-    | .free => "spawn"
-    | _ => if first && !reset then "reset" else "none"
-
-/-- Successors of one state under one observable event; `none` = malformed line. -/
-def onEvent (cfg : Cfg) (l : Line) (s : St) : Option (List St) :=
+/-- One input line as an observable event (`none` = malformed). All judgement is in
+`Kit.Processor.simStep`. -/
+def parseObs (l : Line) : Option (Obs Int Unit) :=
   match l.op with
   | "enq" => do
-    let k ← l.int? "key"; let t ← l.int? "at"; let id ← l.nat? "id"; let f ← l.nat? "first"; let out ← l.get? "out"
-    let first := f == 1
-    if s.nextId != id then return []
-    if outOf s.token s.reset true first != out then return []
-    return (step cfg s (.enqueue k t () first)).toList
+    let k ← l.int? "key"; let t ← l.int? "at"; let id ← l.nat? "id"; let f ← l.nat? "first"
+    let out ← (l.get? "out").bind parseOut
+    return .enq k t () id (f == 1) out
   | "deq" => do
-    let k ← l.int? "key"; let f ← l.nat? "first"; let out ← l.get? "out"
-    let first := f == 1
-    if outOf s.token s.reset first true != out then return []
-    return (step cfg s (.dequeue k first)).toList
-  | "adv" => do
-    let t ← l.int? "to"
-    return (step cfg s (.advance t)).toList
-  | "peeked" =>
-    match l.nat? "id" with
-    | some id => some ((byId s id).toList.flatMap fun r => (step cfg s (.peek (some r))).toList)
-    | none => some (step cfg s (.peek none)).toList
-  | "popped" => do
-    let id ← l.nat? "id"
-    match s.pc with
-    | .firing r => if r.id == id then return (step cfg s (.execCheck (some r))).toList else return []
-    | _ => return []
-  | "stale" => do
-    let id ← l.nat? "id"
-    match s.pc with
-    | .firing r =>
-      if r.id != id then return [] else
-      let cands : List (Option (Item Int Unit)) := none :: s.q.map some
-      return (cands.filter (· != some r)).flatMap fun hd => (step cfg s (.execCheck hd)).toList
-    | _ => return []
+    let k ← l.int? "key"; let f ← l.nat? "first"; let out ← (l.get? "out").bind parseOut
+    return .deq k (f == 1) out
+  | "adv" => do let t ← l.int? "to"; return .adv t
+  | "peeked" => some (.peeked (l.nat? "id"))
+  | "popped" => do let id ← l.nat? "id"; return .popped id
+  | "stale" => do let id ← l.nat? "id"; return .stale id
   | "exec" => do
     let id ← l.nat? "id"; let k ← l.int? "key"; let t ← l.int? "at"; let n ← l.int? "now"
-    match s.pc with
-    | .popped r =>
-      if r.id == id && r.key == k && r.time == t && s.now == n then return (step cfg s .cbStart).toList else return []
-    | _ => return []
-  | "ret" => do
-    let id ← l.nat? "id"
-    match s.pc with
-    | .running r => if r.id == id then return (step cfg s .cbReturn).toList else return []
-    | _ => return []
-  | "closecall" => some (step cfg s .closeBegin).toList
-  | "closeret" => some (step cfg s .closeReturn).toList
-  | "closeret2" => some (step cfg s .closeAgain).toList
-  | "quiet" => some (if (taus cfg s).isEmpty then [s] else [])
-  | "unpark" => some [s]
-  | "park" => do
-    let p ← l.get? "p"
-    if !(parkPoints.contains p || p == "cb") then none else
-    let idOk (r : Item Int Unit) : Bool := l.nat? "id" == some r.id
-    let isNone := l.get? "none" == some "1"
-    let keep : Bool :=
-      match p, s.pc with
-      | "loop.peeked", .peeked r => idOk r
-      | "loop.peeked", .absent => isNone && cfg.fixed
-      | "loop.peeked", .exiting => isNone && !cfg.fixed
-      | "loop.sawEmpty", .absent => cfg.fixed
-      | "loop.sawEmpty", .exiting => !cfg.fixed
-      | "loop.beforeArm", .polled r => idOk r
-      | "loop.parked", .armed r => idOk r
-      | "loop.fired", .firing r => idOk r
-      | "loop.reset", .top => true
-      | "loop.exit", .exiting => true
-      | "execute.popped", .popped r => idOk r
-      | "cb", .running r => idOk r
-      | "process.resetSent", _ => true
-      | "process.tokenTaken", _ => true
-      | "enqueue.afterStoppedCheck", _ => true
-      | "close.afterCAS", _ => true
-      | _, _ => false
-    return if keep then [s] else []
+    return .exec id k t n
+  | "ret" => do let id ← l.nat? "id"; return .ret id
+  | "closecall" => some .closecall
+  | "closeret" => some .closeret
+  | "closeret2" => some .closeret2
+  | "quiet" => some .quiet
+  | "unpark" => some .unpark
+  | "park" => do let p ← l.get? "p"; return .park p (l.nat? "id")
   | _ => none
-
-/-- Does this park hold the goroutine that the model still regards as the loop? -/
-def freezes (cfg : Cfg) (l : Line) : Bool :=
-  match l.get? "p" with
-  | some "loop.sawEmpty" => !cfg.fixed
-  | some "process.resetSent" => false
-  | some "process.tokenTaken" => false
-  | some "enqueue.afterStoppedCheck" => false
-  | some "close.afterCAS" => false
-  | some "loop.peeked" => l.get? "none" != some "1" || !cfg.fixed
-  | some _ => true
-  | none => false
 
 def dumpHeap (h : Heap.H Int Unit) : String :=
   "arr=" ++ ",".intercalate (h.toList.map fun e => s!"{e.value.id}:{e.index}")
@@ -197,21 +109,19 @@ def handle (d : D) (raw : String) : D × String :=
   if l.op.startsWith "h." then handleHeap d l else
   if l.op == "reset" then
     let cfg : Cfg := ⟨l.nat? "fixed" != some 0⟩
-    let ss := closure cfg false [init]
-    ({ d with cfg := cfg, states := ss, frozen := false, dead := false }, s!"ok {ss.length}")
+    let sim : Sim Int Unit := simInit cfg
+    ({ d with cfg := cfg, sim := sim, dead := false }, s!"ok {sim.states.length}")
   else if d.dead then (d, "dead")
   else
-    let rs := d.states.map (onEvent d.cfg l)
-    if rs.any Option.isNone then
-      ({ d with dead := true }, s!"REJECT malformed line: {raw.trimAscii.toString}")
-    else
-      let frozen := if l.op == "park" then freezes d.cfg l else if l.op == "unpark" then false else d.frozen
-      let next := closure d.cfg frozen (rs.flatMap fun r => r.getD [])
-      if next.isEmpty then
-        ({ d with dead := true, states := [] },
-         s!"REJECT no model state accepts `{raw.trimAscii.toString}`; states before: {showSet d.states}")
+    match parseObs l with
+    | none => ({ d with dead := true }, s!"REJECT malformed line: {raw.trimAscii.toString}")
+    | some e =>
+      let next := simStep d.cfg d.sim e
+      if next.states.isEmpty then
+        ({ d with dead := true, sim := next },
+         s!"REJECT no model state accepts `{raw.trimAscii.toString}`; states before: {showSet d.sim.states}")
       else
-        ({ d with states := next, frozen := frozen }, s!"ok {next.length}")
+        ({ d with sim := next }, s!"ok {next.states.length}")
 
 def main (_args : List String) : IO UInt32 := do
   Kit.lineLoop handle ({} : D)
